@@ -21,6 +21,7 @@ DATE_PARTS = ["%Y-%m-%d", "%d/%m/%Y", "%m/%d/%Y", "%d.%m.%y", "%d %B %Y", "%B %d
               "%Y%m%d", "%y%m%d", "%Y-%j", "%B %Y", "%m/%Y", "%Y", "%d %B", "%b %d", "%B", "%b %y"]
 TIME_PARTS = ["", "%H:%M", "%H:%M:%S", "%I:%M %p", "%H:%M:%S.%f", "%I:%M:%S %p"]
 FORMATS = [d + (" " + t if t else "") for d in DATE_PARTS for t in TIME_PARTS if not (t and d in ("%Y", "%B", "%B %Y", "%m/%Y", "%b %y"))]
+FORMATS += [t for t in TIME_PARTS if t]          # time-only formats: day, month and year all come from preferences / the clock
 NOW = [datetime(2024, 3, 31, 9, 8, 7), datetime(2023, 2, 28, 23, 59, 59)]
 PREFS = [("current", "current"), ("first", "first"), ("last", "last"), ("first", "last"), ("last", "first")]
 
@@ -181,7 +182,8 @@ def run_case(sub, c):
         clock.freeze(None)
     if o[0] == "ok":
         dd = o[1]
-        if dd.date_obj == exp and dd.period == per and dd.date_obj.tzinfo is None:
+        time_only = not any(x in fmt for x in ("%d", "%j", "%m", "%b", "%B", "%Y", "%y"))
+        if dd.date_obj == exp and (dd.period == per or time_only) and dd.date_obj.tzinfo is None:
             return "ok", True, None
         got = (dd.date_obj, dd.period)
         kind = "none" if dd.date_obj is None else ("wrong-period" if dd.date_obj == exp else "wrong-value")
